@@ -139,7 +139,7 @@ def run_documents(ck, T, n, depth, prop="C01"):
             ["id", {"s": "specials"}], ["notes", {"s": "a < b && c > d \"q\" 'a' ]]> \n second line &amp; &lt;"}],
             ["properties", {"l": [{"cls": "Property", "kw": [["tag", {"s": "5' 11\""}], ["value", {"s": "x\ny & <z> ]]>"}]]}]}]]}},
     ]
-    out = ck.try_impl("gds_impl.py", {"mode": "document", "order": order, "cases": cases}, timeout=400, label="documents")
+    out = ck.try_impl("gds_impl.py", {"mode": "document", "order": order, "cases": cases}, timeout=ck.n(900, 3600), label="documents")
     res = out["results"] if out else []
     # the interpreter's configuration is not input: the same documents under `python -O` (asserts stripped), with another hash
     # seed (set/dict iteration order) and from another working directory must give the same bytes and the same documents
